@@ -37,7 +37,7 @@ impl TextPlan {
         count(REDUCED.len() as u64, self.reduced_len) * PREFIXES.len() as u64
     }
     fn n_nest(&self) -> u64 {
-        (18 * NEST_DEPTHS.len()) as u64
+        (22 * NEST_DEPTHS.len()) as u64
     }
     pub fn len(&self) -> u64 {
         self.n_full() + self.n_reduced() + self.n_nest() + self.explore + self.random
